@@ -40,6 +40,9 @@ mut("rev_D6_dfxp_open_span", "C09", "catch", [("pycaption/dfxp/base.py", "      
 mut("rev_D6_legacy_open_span", "C09", "catch", [("pycaption/dfxp/extras.py", "        self.open_span = False\n        caption_set = deepcopy(caption_set)", "        caption_set = deepcopy(caption_set)")])
 mut("rev_D6_sami_open_span", "C09", "catch", [("pycaption/sami.py", "        self.open_span = False\n        caption_set = deepcopy(caption_set)", "        caption_set = deepcopy(caption_set)")])
 
+mut("rev_D10_cssutils_flag_not_restored", "C10", "catch", [("pycaption/sami.py", "        raise_exceptions = log.raiseExceptions\n        try:\n            sheet = parseString(css)\n        finally:\n            log.raiseExceptions = raise_exceptions\n", "        sheet = parseString(css)\n")],
+    note="reverse of fix D10: cssutils leaves its global raiseExceptions flag off when a stylesheet parse raises")
+
 # ------------------------------------------------------------------------------ C09 mutants
 mut("c09_sami_no_deepcopy", "C09", "catch", [("pycaption/sami.py", "        caption_set = deepcopy(caption_set)\n        sami = BeautifulSoup(SAMI_BASE_MARKUP", "        sami = BeautifulSoup(SAMI_BASE_MARKUP")])
 mut("c09_dfxp_no_deepcopy", "C09", "catch", [("pycaption/dfxp/base.py", "        caption_set = deepcopy(caption_set)\n\n        # Loop through all captions/nodes", "        # Loop through all captions/nodes")])
